@@ -11,7 +11,7 @@ import itertools
 from fractions import Fraction
 
 from .. import e1, impl
-from ..chartgen import mk
+from ..chartgen import mk, song_envs
 from ..refmodel import exact_us
 
 ID = "C01"
@@ -106,7 +106,7 @@ def plan(tier, seed):
     for r in (1, 7, 192, 480):
         for n_events in LONG:
             shards.append(("long", r, n_events))
-    shards += [("whole", r) for r in (100, 192, 480, 960)] + [("cancel",)]
+    shards += [("whole", r) for r in (100, 192, 480, 960)] + [("cancel",)] + [("song", r) for r in (1, 7, 192, 480, 1080)]
     if tier == "thorough":
         for r in RES:
             for n0 in SUB_BPMS:
@@ -130,7 +130,7 @@ def probe_ticks(tempo, res):
     return [t for t in sorted(cand) if t >= 0 and exact_us(tempo, res, t)[0] < LIMIT]
 
 
-def build(tempo, res, sparse=False):
+def build(tempo, res, sparse=False, song=None):
     pts = probe_ticks(tempo, res)
     if sparse:  # events only near the beginning and near the end: long hops between consecutive events of a kind
         keep = [t for t in pts if t <= tempo[2][0] + 1 or t >= tempo[-2][0]]
@@ -158,12 +158,12 @@ def build(tempo, res, sparse=False):
         # whatever tempo changes lie in between)
         nxt2 = pts[i + 2] - t if i + 2 < len(pts) else nxt + 5
         body2 += ["%d = N 7 %d" % (t, nxt2) if i % 2 == 0 else "%d = N 2 %d" % (t, nxt2), "%d = E e" % t] + (["%d = E f" % t, "%d = S 2 0" % t, "%d = S 2 2" % t] if i % 3 == 1 else [])
-    return mk(res=res, sync=sync, events=ev, tracks=[("ExpertSingle", body), ("EasyGHLBass", body2)]), pts
+    return mk(res=res, sync=sync, events=ev, tracks=[("ExpertSingle", body), ("EasyGHLBass", body2)], song=(None if song is None else song_envs(res)[song])), pts
 
 
-def check_map(ctx, tempo, res, sparse=False):
-    text, pts = build(tempo, res, sparse)
-    ctx.case((res, tuple(tempo), sparse), nontrivial=len(tempo) >= 2, sample=lambda: dict(resolution=res, tempo=[list(x) for x in tempo], probe_ticks=pts))
+def check_map(ctx, tempo, res, sparse=False, song=None):
+    text, pts = build(tempo, res, sparse, song)
+    ctx.case((res, tuple(tempo), sparse, song), nontrivial=len(tempo) >= 2, sample=lambda: dict(resolution=res, tempo=[list(x) for x in tempo], probe_ticks=pts))
     try:
         c = impl.parse(text)
     except Exception as e:  # noqa: BLE001
@@ -172,7 +172,7 @@ def check_map(ctx, tempo, res, sparse=False):
         # reported for any of its ticks
         ctx.hist["rejected_by_parser"] += 1
         ctx.evaluations += 1
-        _report(ctx, text, tempo, res, pts, "the well-formed chart is rejected with %s: %s" % (type(e).__name__, str(e)[:160]), key="rejected-well-formed")
+        _report(ctx, text, tempo, res, pts, "the well-formed chart is rejected with %s: %s" % (type(e).__name__, str(e)[:160]), key="rejected-well-formed", song=song)
         return
     ctx.hist["accepted"] += 1
     obs = probe(c)
@@ -182,7 +182,7 @@ def check_map(ctx, tempo, res, sparse=False):
             try:
                 obs.append([kind, t, impl.us(f(t))])
             except Exception as e:  # noqa: BLE001
-                _report(ctx, text, tempo, res, pts, "%s for tick %d raises %s" % (kind, t, type(e).__name__))
+                _report(ctx, text, tempo, res, pts, "%s for tick %d raises %s" % (kind, t, type(e).__name__), song=song)
                 return
     cache = {}
     for kind, tick, got in obs:
@@ -193,7 +193,7 @@ def check_map(ctx, tempo, res, sparse=False):
             continue
         ctx.evaluations += 1
         if abs(got - ex) > TOL * traversed(tempo, seg, tick) or (tick == 0 and got != 0):
-            _report(ctx, text, tempo, res, pts, "%s at tick %d: reported %d us, exact %.4f us, governing tempo index %d" % (kind, tick, got, float(ex), seg))
+            _report(ctx, text, tempo, res, pts, "%s%s at tick %d: reported %d us, exact %.4f us, governing tempo index %d" % ("" if song is None else "[Song] environment %d: " % song, kind, tick, got, float(ex), seg), song=song)
             return
     ctx.hist["segments_%d" % len(tempo)] += 1
 
@@ -203,11 +203,11 @@ def traversed(tempo, seg, tick):
     return seg + (1 if tick > tempo[seg][0] else 0)
 
 
-def _report(ctx, text, tempo, res, pts, msg, key="exact-time"):
+def _report(ctx, text, tempo, res, pts, msg, key="exact-time", song=None):
     t = [list(x) for x in tempo]
     ctx.violation(
         key,
-        dict(tempo=t, resolution=res),
+        dict(tempo=t, resolution=res, song=song),
         "resolution %d tempo map %r: %s" % (res, t, msg),
         script=SCRIPT.format(text=text, tempo=t, res=res, queries=pts, probe_src=PROBE_SRC.strip("\n")),
     )
@@ -240,6 +240,14 @@ def run_shard(shard, ctx):
                 for nxt in (120000, 97531):
                     ctx.node()
                     check_map(ctx, [(0, bpm * 1000), (gap, nxt), (gap + 2 * r, bpm * 1000 + 500)], r)
+    elif kind == "song":
+        # the [Song] section as an environment: free-text values quoting other fields' lines, numeric fields with
+        # other values, the Resolution line first / last / in the middle - the resolution is what its own line says
+        r = shard[1]
+        for env in range(len(song_envs(r))):
+            ctx.node()
+            for tempo in ([(0, 120000)], [(0, 120000), (192, 60000)], [(0, 1118), (3, 333333), (195, 1000)], [(0, 10**9), (1, 1), (2, 120001), (1000, 999)]):
+                check_map(ctx, tempo, r, song=env)
     elif kind == "cancel":
         # a huge tick count accumulated at a fast tempo, then a tempo lower by many orders of magnitude (differences
         # of large products cancel; times stay far below the timedelta range)
@@ -276,7 +284,7 @@ def run_shard(shard, ctx):
 
 def replay(case):
     ctx = core_ctx()
-    check_map(ctx, [tuple(x) for x in case["tempo"]], case["resolution"])
+    check_map(ctx, [tuple(x) for x in case["tempo"]], case["resolution"], song=case.get("song"))
     return ctx.violations
 
 
